@@ -20,7 +20,8 @@ LEVEL = "fault_enumeration"
 RULE = ("REUSE.toml: every key in {version, annotations, path, precedence, SPDX-FileCopyrightText, SPDX-License-Identifier} x every "
         "TOML type {string, integer, float, boolean, datetime, array of each, nested array, inline table, table, array of tables, "
         "absent} (complete); a valid REUSE.toml and dep5 truncated at every byte offset and with seeded byte flips; invalid UTF-8; "
-        "dep5 + REUSE.toml; covered files of hostile bytes / FIFO / EACCES / vanishing / turning into a directory; LICENSES/ with "
+        "dep5 + REUSE.toml at the root or only in a subdirectory; well-formed files whose path / Files / notice / expression values are "
+        "strings of glob and regex metacharacters (trailing backslashes, unbalanced brackets, ...); covered files of hostile bytes / FIFO / EACCES / vanishing / turning into a directory; LICENSES/ with "
         "non-UTF-8 texts and duplicate identifiers; broken Jinja templates; each crossed with lint (serial and pool), lint-file, "
         "spdx, annotate, convert-dep5, download --all (network refused); non-trivial = input that is not the valid baseline; "
         "distinct = distinct (fault, command)")
@@ -244,7 +245,10 @@ def generate(tier, seed):
         cases.append({"kind": "licenses", "k": k})
     for k in range(8 if tier == "quick" else 100):
         cases.append({"kind": "templates", "k": k})
-    cases.append({"kind": "conflict"})
+    for layout in range(4):
+        cases.append({"kind": "conflict", "layout": layout})
+    for k in range(60 if tier == "quick" else 6000):
+        cases.append({"kind": "values", "k": k})
     return cases
 
 
@@ -344,19 +348,77 @@ def run_case(case, ctx):
             run_licenses(case, ctx, res, root)
         elif kind == "templates":
             run_templates(case, ctx, res, root)
+        elif kind == "values":
+            run_values(case, ctx, res, root)
         else:
+            # the two formats exclude each other wherever in the project the REUSE.toml sits
+            where = ["REUSE.toml", "sub/REUSE.toml", "sub/deep/er/REUSE.toml", "b dir/REUSE.toml"][case.get("layout", 0)]
             (root / ".reuse").mkdir()
             (root / ".reuse" / "dep5").write_text(VALID_DEP5)
-            (root / "REUSE.toml").write_text(VALID_TOML)
+            (root / where).parent.mkdir(parents=True, exist_ok=True)
+            (root / where).write_text(VALID_TOML if where == "REUSE.toml" else 'version = 1\n\n[[annotations]]\npath = "*.py"\n'
+                                      'SPDX-FileCopyrightText = "2020 N"\nSPDX-License-Identifier = "MIT"\n')
             for cmd in ("lint", "lint-file", "spdx", "annotate", "convert-dep5"):
-                judge(res, run_command(cmd, root), "broken", "dep5+REUSE.toml", cmd, ("REUSE.toml", "dep5"))
-                res.sigs.add(short_hash("conflict", cmd))
+                judge(res, run_command(cmd, root), "broken", f"dep5+{where}", cmd, ("REUSE.toml", "dep5"))
+                res.sigs.add(short_hash("conflict", where, cmd))
+            res.cell("conflict:" + where)
     finally:
         FS.fail_open = {}
         FS.on_open = None
         FS.active = False
         shutil.rmtree(root, ignore_errors=True)
     return res.out()
+
+
+ODD_VALUES = ["docs\\", "docs\\\\", "\\", "a\\b\\", "[", "]", "[a-", "(", ")", "a(b", "{1,", "a|b", "^a$", "+", "?", "a?b", "***", "**/**", "/**", "**/",
+              "*\\", "\\*", "\\**", "\\\\*", "*/", "/", "//", "./a.txt", "../x", "", " ", "a b", "é", "\u0000", "\n", "a\nb", "\\Z", "\\d+", "(?i)a",
+              "(?P<n>a)", "a{2}", "[[:alpha:]]", "\\1", "%s", "{0}", "$HOME", "~"]
+ALPHABET = ["\\", "*", "?", "[", "]", "(", ")", "{", "}", ".", "/", "a", "b", "^", "$", "|", "+", " ", "-", "é", "\n"]
+
+
+def odd_value(rng):
+    if rng.random() < 0.5:
+        return rng.choice(ODD_VALUES)
+    return "".join(rng.choice(ALPHABET) for _ in range(rng.randint(1, 7)))
+
+
+def run_values(case, ctx, res, root):
+    """Well-formed configuration files whose *values* are strange strings: nothing here may crash (class grey)."""
+    rng = rng_for(ctx.seed, "c16values", case["k"])
+    which = ["toml-path", "toml-path-array", "toml-other", "dep5-files", "dep5-other"][case["k"] % 5]
+    vals = [odd_value(rng) for _ in range(rng.randint(1, 3))]
+    if which.startswith("toml"):
+        path = json.dumps(vals[0], ensure_ascii=False) if which == "toml-path" else json.dumps(["a.txt"] + vals, ensure_ascii=False)
+        cop, lic = '"2020 J"', '"MIT"'
+        if which == "toml-other":
+            path = '"a.txt"'
+            cop = json.dumps(vals[0], ensure_ascii=False)
+            lic = json.dumps(rng.choice(["MIT", vals[-1], "MIT AND " + vals[-1]]), ensure_ascii=False)
+        text = f"version = 1\n\n[[annotations]]\npath = {path}\nSPDX-FileCopyrightText = {cop}\nSPDX-License-Identifier = {lic}\n"
+        where = rng.choice(["REUSE.toml", "REUSE.toml", "sub/REUSE.toml"])
+        (root / where).write_text(text)
+        names = (where,)
+    else:
+        files = "a.txt" if which == "dep5-other" else " ".join(v.replace("\n", " ") or "x" for v in vals)
+        cop = "2020 J" if which == "dep5-files" else (vals[0].replace("\n", " ").strip() or "x")
+        lic = "MIT" if which == "dep5-files" else rng.choice(["MIT", vals[-1].replace("\n", " ").strip() or "x"])
+        text = VALID_DEP5.split("\n\n")[0] + f"\n\nFiles: {files}\nCopyright: {cop}\nLicense: {lic}\n"
+        (root / ".reuse").mkdir()
+        (root / ".reuse" / "dep5").write_text(text)
+        names = ("dep5",)
+    fault = f"values:{which}"
+    for cmd in ("lint", "lint-file", "spdx", "annotate", "convert-dep5"):
+        r = run_command(cmd, root)
+        ok = judge(res, r, "grey", fault, cmd, names, detail=text)
+        if ok and r.exit_code == 2 and cmd != "convert-dep5" and not any(n in r.stdout + r.stderr for n in names):
+            res.violation("diagnostic-does-not-name-file", f"{cmd}: exit 2 on {fault} but the message does not name {names}", detail=text, **r.brief())
+        res.sigs.add(short_hash(fault, vals, cmd))
+        if which.startswith("dep5") and cmd == "convert-dep5" and r.exit_code == 0:
+            # what conversion wrote must itself load
+            r2 = run_command("lint", root)
+            judge(res, r2, "grey", fault + ":after-conversion", "lint", ("REUSE.toml",), detail=text)
+            break
+    res.cell("values:" + which)
 
 
 HOSTILE_CONTENT = ["random", "nuls", "invalid-utf8-text", "huge-line", "fifo", "eacces", "vanish", "becomes-dir", "utf16", "lone-surrogates",
